@@ -159,3 +159,8 @@ CASES += [
     {"name": "new transformations are put in front of the list", "kind": "mutant", "rule": "C04-B13", "edits": [
         ("quantarhei/core/managers.py", "        self.basis_stack.append(nb)\n        self.basis_transformations.append(SS)\n", "        self.basis_stack.append(nb)\n        self.basis_transformations.insert(0, SS)\n", 1)]},
 ]
+
+CASES += [
+    {"name": "tensor form computed from the raw operator storage (seeded change of round 8, under C02)", "kind": "mutant", "rule": "C04-B14", "edits": [
+        ("quantarhei/qm/liouvillespace/redfieldtensor.py", "            RR = self._convert_operators_2_tensor(self.Km, self.Lm, self.Ld)", "            RR = self._convert_operators_2_tensor(self._Km, self._Lm, self._Ld)", 1)]},
+]
